@@ -165,7 +165,7 @@ impl<'t, 'd> P<'t, 'd> {
 
     fn stmt(&mut self, i: usize) -> String {
         self.budget = 10 + self.t.below(14) as i32;
-        match self.t.below(16) {
+        match self.t.below(32) {
             0 | 1 | 2 => format!("#let v{i} = {}\n#repr(v{i})\n", self.value(0)),
             3 => format!("#repr({})\n", self.value(0)),
             4 => format!("#for x in {} [#x, ]\n", self.array(0)),
@@ -183,7 +183,36 @@ impl<'t, 'd> P<'t, 'd> {
             12 => format!("#let (p{i}, q{i}) = ({}, {})\n#repr(p{i} + q{i})\n", self.int(0), self.int(0)),
             13 => format!("Text with #f({}).{} and #xs.len(); done. #(1).{} #d.a.\n", self.int(0), self.t.pick(&[" Then", "", " x"]), self.t.pick(&[" Next", "a"])),
             14 => format!("#{{\n  let acc = 0\n  for v in xs {{\n    acc += v\n  }}\n  while acc > {} {{ acc -= 2 }}\n  acc\n}}\n", self.t.range(0, 5)),
-            _ => format!("#grid(columns: (1fr, 1fr), gutter: 2pt, [{}], [b], grid.cell(colspan: 2)[c])\n", self.t.pick(&["a", "a a"])),
+            15 => format!("#grid(columns: (1fr, 1fr), gutter: 2pt, [{}], [b], grid.cell(colspan: 2)[c])\n", self.t.pick(&["a", "a a"])),
+            // closures: parameter lists whose parentheses carry meaning
+            16 => format!("#let c{i} = (step: {}) => step + 1\n#repr(c{i}())\n#repr(c{i}(step: 5))\n", self.int(0)),
+            17 => format!("#repr(((1, 2), (3, 4)).map(((a, b)) => a + b * {}))\n#repr(xs.map((x) => x + 1))\n#repr(xs.map(x => (x,)))\n", self.t.range(1, 4)),
+            18 => format!("#let m{i} = (f: x => x + {}, g: (a, b: 2) => a * b)\n#repr((m{i}.f)(2))\n#repr((m{i}.g)(3, b: 4))\n", self.t.range(1, 9)),
+            19 => format!("#let k{i} = (..r, last: {}) => r.pos().len() + last\n#repr(k{i}(1, 2, 3))\n", self.int(0)),
+            // content blocks whose first element is a list item with a continuation line
+            20 => {
+                let head = self.t.pick(&["#block[", "#rect[", "#[", "#box(width: 100%)["]);
+                let item = self.t.pick(&["- Preheat\n         to 200.", "+ a\n  b", "- one\n  - two\n    more", "/ T: d\n  e"]);
+                let tail = self.t.pick(&["\nServe warm.]", "\n\nc]", "]", "\n]", " ]"]);
+                format!("{head}{item}{tail}\n")
+            }
+            21 => format!("#let w{i} = [a#[ b ]c]\n#w{i} #repr(w{i})\n#[*x* ]y #[ _z_]w\n"),
+            // math: spacing and embedded code carry meaning
+            22 => format!("#let n = {}\n$x^#n;y + a_#n;b + #n;/2 + √#n;z$ $a b$ $ab$ $f(x, y)$ $f (x)$\n", self.t.range(2, 9)),
+            23 => format!("$ mat(1, 2; 3, {}) vec(a, b) cases(x &\"if\" y, z &\"else\") $\n$x_1^2 + x_(i j)$ $a/b$ $(a+b)/c$ $a^(-1)$\n", self.int(0)),
+            // rules and scoping
+            24 => format!("#show heading: it => [*#it.body*] \n#set list(marker: [--])\n= T{i}\n- a\n  - b\n"),
+            25 => format!("#[#set text(fill: blue)\nblue #{{ set text(size: {}pt); [small] }} still]\n", self.t.range(4, 9)),
+            26 => format!("#let (a{i}, ..r{i}) = {}\n#repr(a{i}) #repr(r{i})\n#let (x: px{i}, y: py{i}) = (x: 1, y: {})\n#repr(px{i} + py{i})\n", self.t.pick(&["xs", "(1, 2, 3, 4)", "(9,)"]), self.int(0)),
+            27 => {
+                // else / else if on following lines inside a code block
+                let nl = self.t.pick(&[" ", "\n  ", " "]);
+                format!("#let e{i} = {{\n  if {} {{ 1 }}{nl}else if {} {{ 2 }}{nl}else {{ 3 }}\n}}\n#repr(e{i})\n", self.boolean(0), self.boolean(0))
+            }
+            28 => format!("#let t{i} = \"a  b\\n\\\"q\\\"\"\n#repr(t{i}) #t{i}.len()\n`r  aw` ```py\nx = 1\n  y\n```\n"),
+            29 => format!("/ Term {i}: description\n  continued\n/ Other: x\n\n+ one\n+ two\n  + nested {}\n", self.t.range(0, 9)),
+            30 => format!("#let u{i} = -{} + (-{}) - -1\n#repr(u{i}) #repr(not true or false) #repr(1 + 2 * 3 - (4 - 5))\n", self.t.range(1, 9), self.t.range(1, 9)),
+            _ => format!("#let q{i} = xs.map(x => x * 2).filter(x => x > {}).len()\n#repr(q{i})\nA #xs.len()th and #d.c.at(0). #(d.a)em #s;x\n", self.t.range(0, 5)),
         }
     }
 }
